@@ -287,7 +287,7 @@ def phaseJumpBuffer (c : ChanState) (t0 : Int) (newPhase : Rat) (proto : Protoco
     match c.lastPulseSlot true with
     | some (ls, lp) =>
       if lp.phase ≠ newPhase then
-        ((max c.cfg.pjt (if c.inEomMode then 2 * c.cfg.rise else 0) : Nat) : Int)
+        ((max c.cfg.pjt (if c.inEomMode then 2 * max c.cfg.rise c.modeRise else 0) : Nat) : Int)
           + (lp.fall c.inEomMode : Nat) - (t0 - ls.tf)
       else 0
     | none => 0
